@@ -71,7 +71,10 @@ def rule_neighbour_accessors(F, rep):
             rep.ok('C18.A1', 'equivalentVariable|scan-bound', acc.where(L), 'range-for over the whole container')
             continue
         cnd = role(L, 'cond')
-        by_index = any(x.get('k') == 'Ref' and x.get('d') == pd for x in walk(cnd))
+        # bounded by the index = a comparison between the requested index and the loop's own position (the variable stepped by the loop);
+        # stopping once the number of LIVE entries seen exceeds the index is a different thing and is fine
+        steppers = {x.get('d') for x in walk(role(L, 'inc') or {}) if x.get('k') == 'Ref' and x.get('dk') == 'local'}
+        by_index = any(b.get('k') == 'Bin' and b.get('op') in ('<', '<=', '>', '>=', '!=') and any(x.get('k') == 'Ref' and x.get('d') == pd for x in walk(b)) and any(x.get('k') == 'Ref' and x.get('d') in steppers for x in walk(b)) for b in walk(cnd))
         rep.check(not by_index, 'C18.A1', 'equivalentVariable|scan-bound', acc.where(L),
                   'the scan for the i-th live neighbour is bounded by the requested index (`%s`): with two expired entries before a live one that neighbour is never returned, so the search misses part of the network from this side only' % render(cnd)[:70],
                   'bounded by the container only')
